@@ -23,6 +23,9 @@ fn draw_sched(ctx: &Ctx) {
 /// load of that prefix is "newest definition wins, untouched objects from
 /// older revisions".
 pub fn c07_foreign_history(ctx: &Ctx, out: &mut RunOut) -> Result<(), Violation> {
+    for k in ["three-deep-prev-chains", "updates-involving-object-streams"] {
+        ctx.count_n(k, 0); // registered so that a probe that never fires shows up as zero in the evidence
+    }
     let h = gen_history(ctx, 4, ctx.chance(W, 1, 2, "objstm-bias"), false, false);
     let n = h.revisions.len();
     for i in 0..n {
@@ -56,6 +59,9 @@ pub fn c07_foreign_history(ctx: &Ctx, out: &mut RunOut) -> Result<(), Violation>
 /// (b) revisions written by lopdf's IncrementalDocument on top of a lopdf-saved
 /// or foreign base, re-loading after every step.
 pub fn c07_lopdf_updates(ctx: &Ctx, out: &mut RunOut) -> Result<(), Violation> {
+    for k in ["update-on-top-of-update", "foreign-base", "lopdf-base"] {
+        ctx.count_n(k, 0); // registered so that a probe that never fires shows up as zero in the evidence
+    }
     // ---- base image and its model
     let foreign = ctx.chance(W, 1, 2, "foreign-base");
     // integer objects that serve as an indirect stream Length in a foreign base: an update that
